@@ -106,7 +106,7 @@ Proof.
   { intros f Hf. induction n as [|m IH]; cbn [repeat fsum]; [reflexivity|]. rewrite Hf, IH. reflexivity. }
   split; [reflexivity|]. split; [lia|]. split; [rewrite Hs by reflexivity; lia|]. split.
   - intros t Ht. apply repeat_spec in Ht. subst t. unfold ftinv. cbn [ft_pc ft_cnt ft_left ft_reg ft_k depth_at holds_read].
-    repeat split; try lia; try discriminate. intros H; exfalso; apply H; reflexivity.
+    repeat split; try lia; try discriminate; try (intros H; exfalso; apply H; reflexivity).
   - unfold ftotal. rewrite Hs; [lia|]. unfold fcontrib. cbn. lia.
 Qed.
 
@@ -161,7 +161,7 @@ Proof.
     cbn [nth_error incr_prog depth_at] in Hs, Hcnt; subst cnt; cbn [andb Z.of_nat Z.ltb Z.leb Z.compare Pos.compare Pos.compare_cont length incr_prog Nat.eqb Pos.of_succ_nat Pos.succ] in Hs.
   - (* 0: outer Acq -- needs the semaphore *)
     destruct (0 <? SemProg.val (fw_sem w)) eqn:Ev; [|discriminate]. injection Hs as <-.
-    eapply fclose; [exact HW|exact Hi|reflexivity|cbn; lia| | | |left; reflexivity].
+    eapply fclose; [exact HW|exact Hi|cbn [SemProg.recur SemProg.set_val]; exact Hrec|cbn [SemProg.val SemProg.set_val]; lia| | | |left; reflexivity].
     + unfold ins. cbn. lia.
     + unfold ftinv. cbn. repeat split; try lia; try discriminate.
     + unfold fcontrib. cbn. lia.
@@ -203,9 +203,9 @@ Proof.
     + unfold fcontrib. cbn. lia.
   - (* 7: outer Rel -- the count drops to 0, the semaphore is posted; the iteration is complete *)
     injection Hs as <-. specialize (Hn0 ltac:(lia)).
-    eapply fclose; [exact HW|exact Hi|exact Hrec|cbn; lia| | | |left; reflexivity].
+    eapply fclose; [exact HW|exact Hi|cbn [SemProg.recur SemProg.set_val]; exact Hrec|cbn [SemProg.val SemProg.set_val]; lia| | | |left; reflexivity].
     + unfold ins. cbn. lia.
-    + unfold ftinv. cbn. repeat split; try lia; try discriminate. intros H; exfalso; apply H; reflexivity.
+    + unfold ftinv. cbn. repeat split; try lia; try discriminate; try (intros H; exfalso; apply H; reflexivity).
     + unfold fcontrib. cbn. lia.
 Qed.
 
@@ -217,7 +217,7 @@ Proof.
   unfold FInv. cbn [fw_sem fw_val fw_threads SemFork.child_count].
   split; [exact Hrec|]. split; [exact Hv|]. split; [rewrite fsum_app; cbn [fsum]; unfold ins at 2; cbn; lia|]. split.
   - intros u Hu. apply in_app_or in Hu as [Hu|[<-|[]]]; [apply HT; exact Hu|].
-    unfold ftinv. cbn. repeat split; try lia; try discriminate. intros H; exfalso; apply H; reflexivity.
+    unfold ftinv. cbn. repeat split; try lia; try discriminate; try (intros H; exfalso; apply H; reflexivity).
   - unfold ftotal in *. rewrite fsum_app. cbn [fsum]. unfold fcontrib at 2. cbn. lia.
 Qed.
 
@@ -261,21 +261,120 @@ Proof.
 Qed.
 
 (* while process i is inside, no other process can step (a forked child blocks until the parent releases) and
-   whatever another process does -- it can only fork -- leaves the value and process i alone *)
+   whatever another process does -- it can only fork -- leaves the value, the semaphore and process i alone *)
 Theorem fork_others_blocked n k v0 acts i ti :
   let w := frun true incr_prog (fworld_init v0 n k) acts in
   nth_error (fw_threads w) i = Some ti -> ft_pc ti <> 0%nat ->
   (forall j, j <> i -> fstep incr_prog w j = None) /\
-  (forall j k' w', j <> i -> fdo true incr_prog w (FFork j k') = Some w' ->
+  (forall j k' w', fdo true incr_prog w (FFork j k') = Some w' ->
                    fw_val w' = fw_val w /\ fw_sem w' = fw_sem w /\ nth_error (fw_threads w') i = Some ti).
 Proof.
   intros w Hi Pi. pose proof (frun_inv v0 acts _ (finit_inv v0 n k)) as HW. fold w in HW. split.
   - intros j Hne. unfold fstep. destruct (nth_error (fw_threads w) j) as [u|] eqn:Hj; [|reflexivity].
     destruct (Nat.eqb (ft_left u) 0); [reflexivity|].
-    rewrite (fothers_outside v0 w i ti HW Hi Pi j u Hne Hj). cbn [nth_error incr_prog].
-    destruct HW as (Hrec & _ & _ & HT & _) eqn:EW.
+    pose proof (fothers_outside v0 w i ti HW Hi Pi j u Hne Hj) as Hu.
+    pose proof (finside_sem_taken v0 w i ti HW Hi Pi) as Hz.
+    destruct HW as (Hrec & _ & _ & HT & _).
     destruct (HT u (nth_error_In _ _ Hj)) as (_ & Hcnt & _).
-    rewrite (fothers_outside v0 w i ti ltac:(rewrite EW; exact (conj Hrec (proj2 (eq_ind _ (fun x => x) (conj Hrec (proj2 HW)) _ eq_refl)))) Hi Pi j u Hne Hj) in Hcnt.
-    admit.
-  - admit.
-Admitted.
+    rewrite Hu in Hcnt |- *. cbn [nth_error incr_prog depth_at Z.of_nat] in Hcnt |- *.
+    unfold SemProg.sem_acq. rewrite Hrec, Hcnt, Hz. reflexivity.
+  - intros j k' w' Hf. cbn [fdo] in Hf. unfold ffork in Hf.
+    destruct (nth_error (fw_threads w) j) as [u|]; [|discriminate]. injection Hf as <-. cbn [fw_val fw_sem fw_threads].
+    split; [reflexivity|]. split; [reflexivity|].
+    rewrite nth_error_app1; [exact Hi|]. apply nth_error_Some. congruence.
+Qed.
+
+(* while some process is unfinished some process can step *)
+Theorem fork_no_deadlock n k v0 acts :
+  let w := frun true incr_prog (fworld_init v0 n k) acts in
+  fall_done w = false -> exists i w', fstep incr_prog w i = Some w'.
+Proof.
+  intros w Hnd. pose proof (frun_inv v0 acts _ (finit_inv v0 n k)) as HW. fold w in HW.
+  pose proof HW as (Hrec & Hv & Hsum & HT & _).
+  (* is some process inside? *)
+  destruct (existsb finside (fw_threads w)) eqn:Ein.
+  - apply existsb_exists in Ein as [t [Ht Hin]]. apply In_nth_error in Ht as [i Hi].
+    unfold finside in Hin. apply negb_true_iff, Nat.eqb_neq in Hin.
+    destruct (HT t (nth_error_In _ _ Hi)) as (Hlt & Hcnt & Hn0 & _). specialize (Hn0 Hin).
+    exists i. unfold fstep. rewrite Hi. destruct (Nat.eqb (ft_left t) 0) eqn:El; [apply Nat.eqb_eq in El; lia|].
+    unfold SemProg.sem_acq, SemProg.sem_rel. rewrite Hrec, Hcnt.
+    destruct (ft_pc t) as [|[|[|[|[|[|[|[|pc]]]]]]]]; try lia; try (exfalso; apply Hin; reflexivity);
+      cbn [nth_error incr_prog depth_at Z.of_nat Pos.of_succ_nat Pos.succ andb Z.ltb Z.leb Z.compare Pos.compare Pos.compare_cont Z.eqb];
+      eexists; reflexivity.
+  - (* nobody inside: the semaphore is free, any unfinished process can take it *)
+    assert (Hall : forall t, In t (fw_threads w) -> ft_pc t = 0%nat).
+    { intros t Ht. destruct (Nat.eq_dec (ft_pc t) 0) as [E|E]; [exact E|exfalso].
+      assert (existsb finside (fw_threads w) = true); [|congruence].
+      apply existsb_exists. exists t. split; [exact Ht|]. unfold finside. apply negb_true_iff, Nat.eqb_neq. exact E. }
+    assert (Hz : fsum ins (fw_threads w) = 0).
+    { clear - Hall. induction (fw_threads w) as [|x r IH]; cbn [fsum]; [reflexivity|].
+      rewrite IH by (intros t Ht; apply Hall; right; exact Ht). unfold ins. rewrite (Hall x (or_introl eq_refl)). reflexivity. }
+    assert (exists j u, nth_error (fw_threads w) j = Some u /\ ft_left u <> 0%nat) as [j [u [Hj Hl]]].
+    { unfold fall_done in Hnd. clear - Hnd. induction (fw_threads w) as [|x r IH]; cbn in Hnd; [discriminate|].
+      destruct (Nat.eqb (ft_left x) 0) eqn:E; cbn in Hnd.
+      - destruct (IH Hnd) as [j [u [Hj Hl]]]. exists (S j), u. split; assumption.
+      - exists O, x. split; [reflexivity|apply Nat.eqb_neq; assumption]. }
+    destruct (HT u (nth_error_In _ _ Hj)) as (_ & Hcnt & _).
+    pose proof (Hall u (nth_error_In _ _ Hj)) as Hpc. rewrite Hpc in Hcnt. cbn [depth_at Z.of_nat] in Hcnt.
+    exists j. unfold fstep. rewrite Hj. destruct (Nat.eqb (ft_left u) 0) eqn:El; [apply Nat.eqb_eq in El; contradiction|].
+    rewrite Hpc. cbn [nth_error incr_prog]. unfold SemProg.sem_acq. rewrite Hrec, Hcnt.
+    replace (0 <? SemProg.val (fw_sem w)) with true by lia. cbn [andb Z.ltb Z.compare]. eexists; reflexivity.
+Qed.
+
+(* ---- the same theorems for the reset that the code registers (any start method: named or unnamed primitive) *)
+Definition gen_reset (named : bool) : bool := SemFork.resets_after_fork G_semfork.semlock_after_fork_guard named.
+
+Lemma gen_reset_true named : gen_reset named = true.
+Proof. apply gen_fork_reset. Qed.
+
+Theorem G_fork_no_lost_update named n k v0 acts :
+  let w := frun (gen_reset named) incr_prog (fworld_init v0 n k) acts in
+  fw_val w = v0 + ftotal (fw_threads w) /\
+  (fall_done w = true -> fw_val w = v0 + started (fw_threads w)).
+Proof. rewrite gen_reset_true. apply fork_no_lost_update. Qed.
+
+Theorem G_fork_mutual_exclusion named n k v0 acts i j ti tj :
+  let w := frun (gen_reset named) incr_prog (fworld_init v0 n k) acts in
+  nth_error (fw_threads w) i = Some ti -> nth_error (fw_threads w) j = Some tj ->
+  ft_pc ti <> 0%nat -> ft_pc tj <> 0%nat -> i = j.
+Proof. rewrite gen_reset_true. apply fork_mutual_exclusion. Qed.
+
+Theorem G_fork_others_blocked named n k v0 acts i ti :
+  let w := frun (gen_reset named) incr_prog (fworld_init v0 n k) acts in
+  nth_error (fw_threads w) i = Some ti -> ft_pc ti <> 0%nat ->
+  (forall j, j <> i -> fstep incr_prog w j = None) /\
+  (forall j k' w', fdo (gen_reset named) incr_prog w (FFork j k') = Some w' ->
+                   fw_val w' = fw_val w /\ fw_sem w' = fw_sem w /\ nth_error (fw_threads w') i = Some ti).
+Proof. rewrite gen_reset_true. apply fork_others_blocked. Qed.
+
+Theorem G_fork_no_deadlock named n k v0 acts :
+  let w := frun (gen_reset named) incr_prog (fworld_init v0 n k) acts in
+  fall_done w = false -> exists i w', fstep incr_prog w i = Some w'.
+Proof. rewrite gen_reset_true. apply fork_no_deadlock. Qed.
+
+(* ---- WITHOUT the reset: refuted.  One updater (one increment to make) takes the lock, reads 0 and forks, from
+   inside its critical section, an updater with one increment to make.  The child's copy of the lock object counts 2
+   (inherited): "mine".  It runs its whole locked increment while the parent is inside (value 0 -> 1 under the held
+   lock, two processes inside); the parent then stores 0 + 1: two increments, value 1 *)
+Definition lost_update_acts : list fact :=
+  [FStep 0; FStep 0; FStep 0; FFork 0 1] ++ repeat (FStep 1) 8 ++ repeat (FStep 0) 5.
+
+Lemma fork_without_reset_loses_update :
+  let w := frun false incr_prog (fworld_init 0 1 1) lost_update_acts in
+  fall_done w = true /\ started (fw_threads w) = 2 /\ fw_val w = 1.
+Proof. vm_compute. repeat split; reflexivity. Qed.
+
+Lemma fork_without_reset_two_inside :
+  let w1 := frun false incr_prog (fworld_init 0 1 1) [FStep 0; FStep 0; FStep 0; FFork 0 1] in
+  let w2 := frun false incr_prog w1 (repeat (FStep 1) 6) in
+  map ft_pc (fw_threads w1) = [3; 0]%nat /\ fw_val w1 = 0 /\
+  map ft_pc (fw_threads w2) = [3; 6]%nat /\ fw_val w2 = 1 /\      (* both inside; the value changed under the held lock *)
+  SemProg.val (fw_sem w2) = 0.
+Proof. vm_compute. repeat split; reflexivity. Qed.
+
+(* with the reset the same history leaves the child blocked and loses nothing *)
+Lemma fork_with_reset_same_history :
+  let w := frun true incr_prog (fworld_init 0 1 1) lost_update_acts in
+  map ft_pc (fw_threads w) = [0; 0]%nat /\ map ft_left (fw_threads w) = [0; 1]%nat /\ fw_val w = 1 /\
+  fw_val (frun true incr_prog w (repeat (FStep 1) 8)) = 2.
+Proof. vm_compute. repeat split; reflexivity. Qed.
